@@ -323,6 +323,12 @@ func checkC06(e *Engine, r *Report) {
 		}
 		r.Check(okN, "x/evm/keeper.StateTransition.TransitionDb › call path sets nonce+1 before evm.Call", e.Pos(td.Pos()), "SetNonce(from, GetNonce(from)+1) dominates evm.Call", "a message call does not consume the sender's nonce")
 	})
+
+	r.Rule("R7", "MUST-PASS", "an Ethereum message can reach the EVM message server only through the Ethereum lane, whose decorators verify its signature and nonce: the Cosmos-lane authz screen (which refuses MsgEthereumTx nested in MsgExec) inspects EVERY message of a transaction and of every MsgExec — no success return from inside its loop — and MsgEthereumTx is on the default disabled list (both shared with C07-R4)", 1, func() {
+		ok, why := authzScreenInspectsAll(e)
+		fn := e.Fn(pkgCosmoLane, "CLRejectAuthzMsgsDecorator.checkDisabledMsgs")
+		r.Check(ok, "992c › nested Ethereum messages screened", e.Pos(fn.Pos()), "checkDisabledMsgs inspects every message and recurses into MsgExec", why+" — a MsgEthereumTx nested in a later MsgExec reaches the message server without signature, chain-id or nonce verification (x/authz needs no grant when grantee = declared From)")
+	})
 }
 
 func checkNoncePair(e *Engine, r *Report, inc *Decorator) {
